@@ -10,6 +10,16 @@ theorem deliver_eof {α : Type} (xs : List α) (k : Nat) (pre : Bool) :
     deliver (xs, Stop.eof) k pre = if xs.isEmpty then ([], .err .noammo) else (cycleTake xs k, .eof) := by
   simp [deliver]
 
+theorem fits_of_linesFit {file : Bytes} (h : linesFit file = true) : fits file := by
+  intro l hl
+  simp only [linesFit, List.all_eq_true, decide_eq_true_eq] at h
+  exact h l hl
+
+theorem layoutOK_parts {lay : Layout} (h : layoutOK lay = true) :
+    lay.lead.all padOK = true ∧ lay.per.all itemLayOK = true ∧ padOK lay.trail = true := by
+  simp only [layoutOK, Bool.and_eq_true] at h
+  exact ⟨h.1.1, h.1.2, h.2⟩
+
 /-! ### cycleTake -/
 
 theorem flatten_replicate_length {α : Type} (xs : List α) (k : Nat) :
@@ -68,24 +78,58 @@ theorem buildReq_known (m u b t : Bytes) (h : Hdrs) (hu : uriOK u = true) :
     buildReq { method := m, url := u, body := b, tag := t, hdrs := h } = some (mkReq m u [] b t h) := by
   simp [buildReq, parseURL, hu, mkReq]
 
-theorem expAmmo_buildReq (f : Fmt) (hf : f ≠ .raw) : ∀ (items : List Item) (h : Hdrs), targetsKnown items = true →
-    (expAmmo f h items).map buildReq = (expReqs f h items).map some
+theorem expAmmo_buildReq (f : Fmt) (hf : f ≠ .raw) (cfg : Hdrs) : ∀ (items : List Item) (h : Hdrs), targetsKnown items = true →
+    ((expAmmo f h items).map (Ammo.withCfg cfg)).map buildReq = (expReqs f cfg h items).map some
   | [], _, _ => rfl
   | .hdr k v :: r, h, hk => by
     simp only [expAmmo, expReqs]
-    exact expAmmo_buildReq f hf r _ (by simpa [targetsKnown] using hk)
+    exact expAmmo_buildReq f hf cfg r _ (by simpa [targetsKnown] using hk)
   | .req u t b :: r, h, hk => by
     simp only [targetsKnown, List.all_cons, Bool.and_eq_true] at hk
-    have ih := expAmmo_buildReq f hf r h (by simpa [targetsKnown] using hk.2)
+    have ih := expAmmo_buildReq f hf cfg r h (by simpa [targetsKnown] using hk.2)
     simp only [expAmmo, expReqs, List.map_cons, ih]
     congr 1
+    simp only [Ammo.withCfg]
     rw [buildReq_known _ _ _ _ _ hk.1]
     by_cases hp : f = .uripost
     · simp [hp]
     · simp [hp]
   | .frame t fr :: r, h, hk => by
     simp only [expAmmo, expReqs]
-    exact expAmmo_buildReq f hf r _ (by simpa [targetsKnown] using hk)
+    exact expAmmo_buildReq f hf cfg r _ (by simpa [targetsKnown] using hk)
+
+/-! ### the `headers` option never overrides the file -/
+
+theorem hget_append_of_some (h t : Hdrs) (k v : Bytes) (hk : hget h k = some v) : hget (h ++ t) k = some v := by
+  induction h with
+  | nil => simp [hget] at hk
+  | cons x r ih =>
+    obtain ⟨k', v'⟩ := x
+    simp only [hget, List.cons_append] at hk ⊢
+    split
+    · rename_i he; simpa [he] using hk
+    · rename_i he; simp only [he, if_false] at hk; exact ih hk
+
+/-- a key the file defined keeps the file's value -/
+theorem mergeCfg_keeps (cfg h : Hdrs) (k v : Bytes) (hk : hget h k = some v) : hget (mergeCfg h cfg) k = some v := by
+  unfold mergeCfg
+  induction cfg generalizing h with
+  | nil => simpa using hk
+  | cons kv r ih =>
+    simp only [List.foldl_cons]
+    apply ih
+    split
+    · exact hk
+    · exact hget_append_of_some _ _ _ _ hk
+
+theorem mergeCfg_nil (h : Hdrs) : mergeCfg h [] = h := rfl
+
+theorem withCfg_nil (a : Ammo) : Ammo.withCfg [] a = a := rfl
+
+theorem map_withCfg_nil (as : List Ammo) : as.map (Ammo.withCfg []) = as := by
+  induction as with
+  | nil => rfl
+  | cons a r ih => simp [withCfg_nil, ih]
 
 /-! ### the verdict function accepts exactly-equal observations -/
 
@@ -102,31 +146,31 @@ theorem judge_refl (xs : List String) (e : String) : judge xs e xs e = "ok" := b
   simp
 
 /-- if the decoder model delivered exactly the expected ammo, its observation passes the Spec -/
-theorem modelObs_ok (f : Fmt) (hf : f ≠ .raw) (items : List Item) (k : Nat) (hk : targetsKnown items = true)
+theorem modelObs_ok (f : Fmt) (hf : f ≠ .raw) (cfg : Hdrs) (items : List Item) (k : Nat) (hk : targetsKnown items = true)
     (res : List Ammo × Stop)
     (hres : res = if (expAmmo f [] items).isEmpty then ([], .err .noammo) else (cycleTake (expAmmo f [] items) k, .eof)) :
-    ∃ e rs, modelObs res = some (e, rs) ∧
-      judge (expected ((expReqs f [] items).map reqStr) k) (expectedErr ((expReqs f [] items).map reqStr)) rs e = "ok" := by
-  have hmap := expAmmo_buildReq f hf items [] hk
-  have hempty : (expAmmo f [] items).isEmpty = ((expReqs f [] items).map reqStr).isEmpty := by
+    ∃ e rs, modelObs (withCfgRes cfg res) = some (e, rs) ∧
+      judge (expected ((expReqs f cfg [] items).map reqStr) k) (expectedErr ((expReqs f cfg [] items).map reqStr)) rs e = "ok" := by
+  have hmap := expAmmo_buildReq f hf cfg items [] hk
+  have hempty : (expAmmo f [] items).isEmpty = ((expReqs f cfg [] items).map reqStr).isEmpty := by
     have := congrArg List.length hmap
     simp only [List.length_map] at this
-    cases h1 : expAmmo f [] items <;> cases h2 : expReqs f [] items <;> simp [h1, h2] at this ⊢
+    cases h1 : expAmmo f [] items <;> cases h2 : expReqs f cfg [] items <;> simp [h1, h2] at this ⊢
   by_cases hE : (expAmmo f [] items).isEmpty = true
   · have hE' := hE; rw [hempty] at hE'
     rw [if_pos hE] at hres
     refine ⟨"noammo", [], by subst hres; rfl, ?_⟩
-    have : (expReqs f [] items).map reqStr = [] := List.isEmpty_iff.mp hE'
+    have : (expReqs f cfg [] items).map reqStr = [] := List.isEmpty_iff.mp hE'
     rw [this]
     simp [expected, expectedErr, cycleTake_nil, judge_refl]
   · have hE' := hE; rw [hempty] at hE'
     rw [if_neg hE] at hres
-    refine ⟨"ok", (cycleTake (expReqs f [] items) k).map reqStr, ?_, ?_⟩
+    refine ⟨"ok", (cycleTake (expReqs f cfg [] items) k).map reqStr, ?_, ?_⟩
     · subst hres
-      simp only [modelObs, cycleTake_map, hmap]
+      simp only [modelObs, withCfgRes, cycleTake_map, hmap]
       rw [← cycleTake_map, allSome_map_some]
       simp [stopName, cycleTake_map]
-    · have : expectedErr ((expReqs f [] items).map reqStr) = "ok" := by
+    · have : expectedErr ((expReqs f cfg [] items).map reqStr) = "ok" := by
         simp only [expectedErr]; simp only [Bool.not_eq_true] at hE'; simp [hE']
       rw [this, expected, cycleTake_map]
       exact judge_refl _ _
@@ -192,23 +236,24 @@ theorem parseURL_http (host uri : Bytes) (hh : host.isEmpty = true ∨ hostOK ho
     rcases hh with hh | hh <;> simp [hh]
   simp [this, hu]
 
-theorem entity_buildReq (e : Entity) (hk : entityKnown e = true) :
-    ∃ a, entityAmmo e = .ok a ∧ buildReq a = some (entityReq e.host e.method e.uri e.tag e.body e.headers) := by
+theorem entity_buildReq (cfg : Hdrs) (e : Entity) (hk : entityKnown e = true) :
+    ∃ a, entityAmmo e = .ok a ∧ buildReq (a.withCfg cfg) = some (entityReq cfg e.host e.method e.uri e.tag e.body e.headers) := by
   simp only [entityKnown, Bool.and_eq_true, Bool.or_eq_true] at hk
   obtain ⟨⟨hu, hh⟩, hm⟩ := hk
   refine ⟨{ method := e.method, url := httpPrefix ++ e.host ++ e.uri, body := e.body, tag := e.tag,
              hdrs := e.headers.foldl (fun h kv => hset h kv.1 kv.2) [] }, by simp [entityAmmo, hm], ?_⟩
-  simp only [buildReq, parseURL_http e.host e.uri hh hu, entityReq, mkReq]
+  simp only [Ammo.withCfg, buildReq, parseURL_http e.host e.uri hh hu, entityReq, mkReq]
+  rfl
 
 
-theorem jsonPass_known : ∀ (ents : List Entity), ents.all entityKnown = true →
+theorem jsonPass_known (cfg : Hdrs) : ∀ (ents : List Entity), ents.all entityKnown = true →
     ∃ as, jsonPass ents = (as, .eof) ∧ as.length = ents.length ∧
-      as.map buildReq = ents.map (fun e => some (entityReq e.host e.method e.uri e.tag e.body e.headers))
+      (as.map (Ammo.withCfg cfg)).map buildReq = ents.map (fun e => some (entityReq cfg e.host e.method e.uri e.tag e.body e.headers))
   | [], _ => ⟨[], rfl, rfl, rfl⟩
   | e :: r, hk => by
     simp only [List.all_cons, Bool.and_eq_true] at hk
-    obtain ⟨as, h1, h2, h3⟩ := jsonPass_known r hk.2
-    obtain ⟨a, ha, hb⟩ := entity_buildReq e hk.1
+    obtain ⟨as, h1, h2, h3⟩ := jsonPass_known cfg r hk.2
+    obtain ⟨a, ha, hb⟩ := entity_buildReq cfg e hk.1
     refine ⟨a :: as, ?_, by simp [h2], by simp [hb, h3]⟩
     simp [jsonPass, ha, h1]
 
